@@ -59,6 +59,19 @@ def cases(tier, seed):
         maxiter = int(rng.integers(1, 7))
         script = [[float(rng.choice([2.0, 1.0, 0.5, 5.0, 0.01])) for _ in range(maxiter + 1)] for _ in range(procs)]
         cs.append(dict(kind='script', procs=procs, maxiter=maxiter, script=script, nlev=int(rng.integers(1, 3)), jac=bool(rng.random() < 0.5), _cost=0.5))
+    # forced continuation (the flag Adaptivity(avoid_restarts=True) raises): scripted (slot, iteration) positions
+    for i in range(60 if tier == 'quick' else 1500):
+        procs = int(rng.integers(1, 4))
+        maxiter = int(rng.integers(1, 5))
+        nf = int(rng.integers(1, 4))
+        force = set()
+        for _ in range(nf):
+            p = int(rng.integers(0, procs))
+            k = maxiter + len([1 for (pp, kk) in force if pp == p and kk >= maxiter]) if rng.random() < 0.6 else int(rng.integers(0, maxiter + 2))
+            force.add((p, k))
+        L = maxiter + nf + 3
+        script = [[float(rng.choice([2.0, 1.0, 0.5, 5.0, 0.01, 3.0, 3.0])) for _ in range(L)] for _ in range(procs)]
+        cs.append(dict(kind='script', procs=procs, maxiter=maxiter, script=script, force=sorted(force), nlev=int(rng.integers(1, 3)), jac=bool(rng.random() < 0.5), _cost=0.6))
     return cs
 
 
@@ -217,18 +230,25 @@ def run_script(case, r):
     from pySDC.implementations.sweeper_classes.generic_implicit import generic_implicit
     from pySDC.implementations.transfer_classes.TransferMesh import mesh_to_mesh
 
-    from vf.mon.probes import ResidualInjector
+    from vf.mon.probes import ContinueInjector, ResidualInjector
     from vf.mon.tracehook import find_hook, make_trace_hook
 
     procs, maxiter, nlev = case['procs'], case['maxiter'], case['nlev']
     restol = 1e-3
     script = {p: [x * restol for x in case['script'][p]] for p in range(procs)}
-    r.key = f'script/{procs}/{maxiter}/{nlev}/{case["jac"]}/{case["script"]}'
-    box = dict(script=script)
+    force = {tuple(x) for x in case.get('force', [])}
+    r.key = f'script/{procs}/{maxiter}/{nlev}/{case["jac"]}/{case["script"]}/{sorted(force)}'
+    box = dict(script=script, force_continue=force)
     counts = {}
+    guard = maxiter + len(force) + 6
+
+    class IterationGuard(Exception):
+        pass
 
     def extra(ev, step, level_number):
         ev['upd'] = counts.get((step.status.slot, 0), 0)
+        if step.status.iter > guard:
+            raise IterationGuard(f'slot {step.status.slot} reached iteration {step.status.iter}')
 
     H = make_trace_hook(extra=extra)
     desc = dict(
@@ -236,23 +256,34 @@ def run_script(case, r):
         sweeper_class=generic_implicit, sweeper_params=dict(num_nodes=2, quad_type='RADAU-RIGHT', QI='LU'),
         level_params=dict(dt=0.05, restol=restol), step_params=dict(maxiter=maxiter), convergence_controllers={ResidualInjector: dict(box=box)},
     )
+    if force:
+        desc['convergence_controllers'][ContinueInjector] = dict(box=box)
     if nlev > 1:
         desc.update(space_transfer_class=mesh_to_mesh, space_transfer_params=dict(iorder=2, rorder=2))
     ctrl = controller_nonMPI(procs, dict(logger_level=50, dump_setup=False, hook_class=[H], mssdc_jac=case['jac']), desc)
     _wrap_update_counts(ctrl, counts)
     P = ctrl.MS[0].levels[0].prob
     u0 = P.u_exact(0.0)
-    uend, stats = ctrl.run(u0, 0.0, procs * 0.05)
+    try:
+        uend, stats = ctrl.run(u0, 0.0, procs * 0.05)
+    except IterationGuard as e:
+        r.check(False, 'iteration-budget', f'{r.key}: {e} with maxiter={maxiter} and continuation forced only at {sorted(force)}: the iteration counter exceeds the budget without being forced')
+        return
     hook = find_hook(ctrl, H)
-    # expected stop index per slot: first j >= stop of previous slot with res[j] <= restol, or maxiter
+    # expected stop index per slot: first j >= stop of previous slot with (res[j] <= restol or j >= maxiter) and continuation not forced at (slot, j)
     stop_prev = 0
     exp = []
     for p in range(procs):
         j = stop_prev
-        while j < maxiter and not (script[p][j] <= restol):
+        while not ((j >= maxiter or script[p][j] <= restol) and (p, j) not in force):
             j += 1
         exp.append(j)
         stop_prev = j
+    if force:
+        forced = set(box.get('forced', []))
+        r.count('forced_continuations', len(forced))
+        if any(exp[p] > maxiter for p in range(procs)):
+            r.count('scripts_running_past_the_budget')
     got = {}
     upd = {}
     start_upd = {}
